@@ -18,6 +18,7 @@ import (
 	"net/http"
 	"runtime/debug"
 	"encoding/base64"
+	"encoding/binary"
 	"os"
 	"path/filepath"
 	"sort"
@@ -341,7 +342,9 @@ func (w *world) ServeHTTP(rw http.ResponseWriter, r *http.Request) {
 		// the log's signature line with another signature algorithm id and
 		// garbage where the signature was
 		if path == "checkpoint" {
-			body = forgeSigAlg(body, logName, n)
+			if v, err := sunlight.NewRFC6962Verifier(logName, w.key.Public()); err == nil {
+				body = forgeSigAlg(body, logName, v.KeyHash(), n)
+			}
 		}
 	case "extline":
 		// an extension line nobody signed (the RFC 6962 signature covers size,
@@ -956,7 +959,7 @@ func (w *world) mainFile() {
 // forgeSigAlg rewrites the first signature line of name: the TLS signature
 // algorithm byte becomes one that does not match the key, the signature bytes
 // garbage; size and root are altered too, so that acceptance is visible.
-func forgeSigAlg(ck []byte, name string, n int) []byte {
+func forgeSigAlg(ck []byte, name string, keyHash uint32, n int) []byte {
 	lines := strings.SplitAfter(string(ck), "\n")
 	for i, l := range lines {
 		if !strings.HasPrefix(l, "— "+name+" ") {
@@ -964,8 +967,8 @@ func forgeSigAlg(ck []byte, name string, n int) []byte {
 		}
 		parts := strings.SplitN(strings.TrimSuffix(l, "\n"), " ", 3)
 		raw, err := base64.StdEncoding.DecodeString(parts[2])
-		if err != nil || len(raw) < 20 {
-			continue
+		if err != nil || len(raw) < 20 || binary.BigEndian.Uint32(raw) != keyHash {
+			continue // the ML-DSA cosignature carries the same name; line order is random
 		}
 		raw[13] = byte(n % 3) // anonymous(0), rsa(1), dsa(2): none is ecdsa(3)
 		for j := 16; j < len(raw); j++ {
